@@ -22,7 +22,22 @@ def main():
     t0 = time.time()
     cases = 0
     failures = []
-    for case in gen:
+    def directed():
+        # literal runs around the 127-byte insert limit and its multiples; copies whose offset / size have a zero low byte (0x100,
+        # 0x200: git omits zero operand bytes)
+        import random
+        rnd = random.Random(5)
+        blk = bytes(rnd.randrange(256) for _ in range(0x500))
+        for ln in (1, 126, 127, 128, 253, 254, 255, 381, 508, 509):
+            fresh = bytes((7 * k + 3) % 251 for k in range(ln))
+            yield {"base_buf": blk[:1200], "target_buf": blk[:600] + fresh + blk[600:1200]}
+            yield {"base_buf": blk[:1200], "target_buf": fresh + blk[:1200]}
+            yield {"base_buf": b"", "target_buf": fresh}
+        for off in (0xFF, 0x100, 0x101, 0x200):
+            for size in (0xFF, 0x100, 0x200, 0x101):
+                yield {"base_buf": blk[:0x500], "target_buf": b"head" + blk[off:off + size] + b"tail"}
+    import itertools
+    for case in itertools.chain(gen, directed()):
         base, target = case["base_buf"], case["target_buf"]
         cases += 1
         try:
@@ -33,7 +48,7 @@ def main():
         except Exception as e:  # noqa: BLE001
             ok = False
             why = f"{type(e).__name__}: {e}"
-        if ok:
+        if ok and len(base) + len(target) < 5000:
             for op, i1, i2, j1, j2 in SequenceMatcher(isjunk=None, a=base, b=target).get_opcodes():
                 if op in ("replace", "insert") and j2 <= j1:
                     ok, why = False, "assumed difflib contract violated: empty replace/insert block"
@@ -43,7 +58,7 @@ def main():
             failures.append({"function": "dulwich/pack.py:_create_delta_py", "obligation": "lemma:delta_roundtrip(bounded)",
                              "clause": "join(apply_delta(base, join(create_delta(base, target)))) == target",
                              "inputs": {"base_buf": native.encode_value(base), "target_buf": native.encode_value(target)}, "detail": {"why": why}})
-    print(json.dumps({"name": "delta_roundtrip@delta_pairs", "function": "dulwich/pack.py:_create_delta_py + apply_delta", "bound": bound,
+    print(json.dumps({"name": "delta_roundtrip@delta_pairs", "function": "dulwich/pack.py:_create_delta_py + apply_delta", "bound": bound + "; directed: insert runs of 1..509 bytes around multiples of 127, copies at offsets / sizes 0xFF..0x200",
                       "cases": cases, "exhaustive": True, "failures": failures, "secs": round(time.time() - t0, 2)}))
 
 
